@@ -78,7 +78,7 @@ def main():
             hist = old.get('history', [])
             meta['ran'] = 'seedrun.py %s --tier=%s --props=%s' % (sid, tier, ','.join(props))
             meta['history'] = hist
-            for k in ('what_it_needs', 'notes'):
+            for k in ('what_it_needs', 'notes', 'status'):
                 if k in old: meta[k] = old[k]
             json.dump(meta, open(d+'/meta.json','w'), indent=1)
             print(sid, 'applies=%s suite=%s demo_fails=%s demo_ok_unchanged=%s caught_by=%s' % (meta.get('applies'), meta.get('suite_passes'), meta.get('demo_fails_with_change'), meta.get('demo_passes_without_change'), meta.get('caught_by')), flush=True)
